@@ -37,6 +37,9 @@ type Obl struct {
 	Output  string
 	SmtFile string
 	Parts  []string // independent conjuncts of Goal (one per return site): each is discharged by its own query
+	IsPart bool
+	OptionalCover bool // call-site cover: unsat is only an error if the call site itself is reachable
+	PreGuard string
 	Candidate bool // counterexample came from the weakened (quantifier-free hypotheses) query
 }
 
@@ -126,6 +129,7 @@ type Unit struct {
 	acquireSnap *State
 	topRets []retRec
 	nextOverride string
+	wantCallCovers bool
 	selfRef string // identity of the function value when a closure is verified standalone
 	modsDone bool
 	oblNames map[string]int
